@@ -157,13 +157,11 @@ theorem ka_polyFold_coeff {R : Type} [CommRing R] (n k : Nat) (c : Nat → R) (i
       (fun j acc => Polynomial.C (c j) * Polynomial.X ^ j + acc) 0).coeff i =
       if k ≤ i ∧ i < k + n then c i else 0 := by
   induction n generalizing k with
-  | zero =>
-    have : ¬ (k ≤ i ∧ i < k + 0) := by omega
-    simp [this]
+  | zero => simp
   | succ n ih =>
     simp only [List.range'_succ, List.foldr_cons, Polynomial.coeff_add,
       Polynomial.coeff_C_mul_X_pow, ih]
-    split_ifs <;> first | (exfalso; omega) | (subst_vars; simp) | simp
+    split_ifs <;> first | (exfalso; omega) | (subst_vars; simp)
 
 theorem ka_polyOf_coeff {R : Type} [CommRing R] (coef : List R) (i : Nat) :
     (polyOf coef).coeff i = coef.getD i 0 := by
